@@ -251,3 +251,42 @@ func OnceDo(o *sync.Once, f func()) {
 		f()
 	})
 }
+
+// ---------------------------------------------------------------- channels
+
+// Send / Recv are channel operations that never block the token scheduler: while
+// the operation cannot proceed the task lets another one run.
+func Send[T any](ch chan<- T, v T) {
+	if BlockHook == nil {
+		ch <- v
+		return
+	}
+	for {
+		select {
+		case ch <- v:
+			return
+		default:
+			BlockHook()
+		}
+	}
+}
+
+func Recv[T any](ch <-chan T) T {
+	v, _ := Recv2(ch)
+	return v
+}
+
+func Recv2[T any](ch <-chan T) (T, bool) {
+	if BlockHook == nil {
+		v, ok := <-ch
+		return v, ok
+	}
+	for {
+		select {
+		case v, ok := <-ch:
+			return v, ok
+		default:
+			BlockHook()
+		}
+	}
+}
